@@ -29,7 +29,21 @@ fn one<T: Idx, R: BufRead>(w: u8, t: MocQtyType<T, R>) -> String {
     MocQtyType::Hpx(m) => rg("s", w, m),
     MocQtyType::Time(m) => rg("t", w, m),
     MocQtyType::Freq(m) => rg("f", w, m),
-    MocQtyType::TimeHpx(STMocType::V2(it)) => format!("OK st-v2 {} {} {}", w, it.depth_max_1(), it.depth_max_2()),
+    MocQtyType::TimeHpx(STMocType::V2(it)) => {
+      let (d1, d2) = (it.depth_max_1(), it.depth_max_2());
+      let mut out = Vec::new();
+      for e in it {
+        let (t, sp) = e.mocs();
+        let tr: Vec<(u64, u64)> = t.moc_ranges().iter().map(|r| (r.start.to_u64(), r.end.to_u64())).collect();
+        let sr: Vec<(u64, u64)> = sp.moc_ranges().iter().map(|r| (r.start.to_u64(), r.end.to_u64())).collect();
+        out.push(format!("{} {}", ranges_str(&tr), ranges_str(&sr)));
+      }
+      if out.is_empty() {
+        format!("OK st-v2 {} {} {} 0", w, d1, d2)
+      } else {
+        format!("OK st-v2 {} {} {} {} {}", w, d1, d2, out.len(), out.join(" "))
+      }
+    }
     MocQtyType::TimeHpx(STMocType::PreV2(it)) => format!("OK st-prev2 {} {} {}", w, it.depth_max_1(), it.depth_max_2()),
     #[allow(unreachable_patterns)]
     _ => "OK other".to_string(),
